@@ -148,6 +148,38 @@ theorem C16_stop_can_always_return (c : Cfg) (hc : c.proto = .fixed) (n : Nat) (
     ∃ ls s', (∀ l ∈ ls, l ≠ .start) ∧ runTrace c ls s = some s' ∧ s'.main = .idle ∧ s'.up = false :=
   can_stop hc (measure c s) s h (Nat.le_refl _)
 
+/-- **Each callback sees a sub-sequence of the accepted indications, in queue order** (fixed protocol,
+    every reachable state): the indications handed to callback `k` so far, in the order of the calls,
+    are a sublist of `enq`; hence strictly increasing per sender (the order the sender sent them and they
+    were acknowledged) and free of duplicates. -/
+theorem C16_callback_sees_in_order (c : Cfg) (hc : c.proto = .fixed) (n : Nat) (s : Sys)
+    (h : Reachable c n s) (k : Nat) :
+    (seenBy k s.log).Sublist s.enq ∧
+    (seenBy k s.log).Pairwise (fun a b => a.1 = b.1 → a.2 < b.2) := by
+  have I := inv_reachable hc h
+  have hsub : (seenBy k s.log).Sublist s.enq := by
+    rw [I.data.logOk, seenBy_append, seenBy_expand, ← I.data.conserve]
+    have h2 : (seenBy k (partialLog c s)).Sublist (inflight s) := by
+      rcases partialLog_calls c s with ⟨hi, hp⟩ | ⟨y, m, hi, hp⟩
+      · rw [hp, hi]; simp [seenBy]
+      · rw [hp, hi, seenBy_calls]; split <;> simp
+    have h1 : (if k < c.ncb then s.dlv else []).Sublist s.dlv := by split <;> simp
+    rw [List.append_assoc]
+    exact List.Sublist.append h1 (List.Sublist.trans h2 (List.sublist_append_left _ _))
+  exact ⟨hsub, List.Pairwise.sublist hsub I.uniq.order⟩
+
+/-- **When stopped, every callback has seen exactly the accepted indications, in queue order.** -/
+theorem C16_every_callback_saw_all (c : Cfg) (hc : c.proto = .fixed) (n : Nat) (s : Sys)
+    (h : Reachable c n s) (hidle : s.main = .idle) (hup : s.up = false) (k : Nat) (hk : k < c.ncb) :
+    seenBy k s.log = s.enq := by
+  obtain ⟨hlog, _⟩ := C16_stop_returns_clean c hc n s h hidle hup
+  rw [hlog, seenBy_expand]; simp [hk]
+
+/-- **A raising callback changes nothing** (by construction of the model, mirroring the
+    `try/except Exception` around each callback call): the transition taken when a callback is left by
+    an exception is the one taken when it returns. -/
+theorem C16_callback_raise_irrelevant (c : Cfg) (s : Sys) : step c (.cb true) s = step c (.cb false) s := rfl
+
 /-- **Acknowledged ⇒ enqueued.**  No indication is acknowledged with a success response without
     having been put into the queue (the "`_ind_queue is None` – ignoring indication" branch of
     `_handle_indication` is unreachable: stop() joins all handler threads before it touches the
